@@ -68,4 +68,6 @@ let () =
       hex_of_n (Model.dbp_sections_cost (nat_of_int (int_of_string sections)) (n_of_int (int_of_string limit)) (bytes_of_tok b)) | _ -> failwith "args");
   register "c04.go_dlba_dec" (function [b] ->
       gres (fun (data, offs) -> tok_of_bytes data ^ " " ^ out_nlist offs) (Model.go_dlba_dec (bytes_of_tok b)) | _ -> failwith "args");
-  register "c04.go_dba_dec" (function [b] -> gres out_blist (Model.go_dba_dec (bytes_of_tok b)) | _ -> failwith "args")
+  register "c04.go_dba_dec" (function [b] -> gres out_blist (Model.go_dba_dec (bytes_of_tok b)) | _ -> failwith "args");
+  (* the indexes of an RLE_DICTIONARY page as the page reader builds them: c04.go_index_page <num_values> <page data> *)
+  register "c04.go_index_page" (function [n; b] -> gres out_nlist (Model.go_indexed_page (nat n) (bytes_of_tok b)) | _ -> failwith "args")
